@@ -374,6 +374,34 @@ Proof.
   rewrite K0, K1, K2. cbn [andb]. rewrite W1, W2. ring.
 Qed.
 
+(* barycentric coordinates are unique: whatever weights summing to 1 reproduce the query point in a non-degenerate
+   triangle are the ones bary computes, so the value does not depend on how they were obtained (vertex order, solver) *)
+Theorem bary_unique a b c x y w0 w1 w2 u0 u1 u2 : bary a b c x y = Some (w0, w1, w2) ->
+  u0 + u1 + u2 == 1 -> x == u0 * vx a + u1 * vx b + u2 * vx c -> y == u0 * vy a + u1 * vy b + u2 * vy c ->
+  w0 == u0 /\ w1 == u1 /\ w2 == u2.
+Proof.
+  unfold bary. destruct (Qeq_bool _ 0) eqn:E; [discriminate|].
+  assert (Hd : ~ det2 (vx b - vx a) (vy b - vy a) (vx c - vx a) (vy c - vy a) == 0)
+    by (intros K; apply Qeq_bool_iff in K; rewrite K in E; discriminate).
+  destruct (Qle_bool 0 _ && Qle_bool 0 _ && Qle_bool 0 _); [|discriminate].
+  intros H Hs Hx Hy. injection H as <- <- <-.
+  assert (E0 : u0 == 1 - u1 - u2) by lra.
+  assert (W1 : det2 (x - vx a) (y - vy a) (vx c - vx a) (vy c - vy a) / det2 (vx b - vx a) (vy b - vy a) (vx c - vx a) (vy c - vy a) == u1).
+  { unfold det2 in *. rewrite Hx, Hy, E0. field. exact Hd. }
+  assert (W2 : det2 (vx b - vx a) (vy b - vy a) (x - vx a) (y - vy a) / det2 (vx b - vx a) (vy b - vy a) (vx c - vx a) (vy c - vy a) == u2).
+  { unfold det2 in *. rewrite Hx, Hy, E0. field. exact Hd. }
+  rewrite W1, W2. repeat split; lra.
+Qed.
+
+(* with a positive scale the scaled value is between scale x min and scale x max inside, 0 outside *)
+Theorem sparse_depth_range scale lo hi tris x y : 0 < scale -> Forall (tri_in lo hi) tris ->
+  sparse_depth scale tris x y == 0 \/ scale * lo <= sparse_depth scale tris x y <= scale * hi.
+Proof.
+  intros Hs Hf. unfold sparse_depth. destruct (tri_interp_range lo hi tris x y Hf) as [[_ Hz]|[_ [H1 H2]]].
+  - left. rewrite Hz. ring.
+  - right. split; nra.
+Qed.
+
 (* ---------------- sample_path as a whole ---------------- *)
 Lemma subseq_Forall {A} (P : A -> Prop) l1 l2 : subseq l1 l2 -> Forall P l2 -> Forall P l1.
 Proof.
